@@ -24,9 +24,14 @@ Print Assumptions C12_create.
    rating group, to the notification URI the subscriber's consumer registered *)
 Theorem C12_recharge : forall rsize usize w supi rg u,
   find_ue (w_ues w) supi = Some u ->
+  0 <= u_notify u ->                       (* the consumer registered a notification URI *)
   let '(w', rs) := step rsize usize w (Recharge supi rg) in
   rs_status rs = 204 /\ w_notes w' = w_notes w ++ [(u_notify u, supi, rg)] /\ w_db w' = w_db w.
-Proof. intros. rewrite (recharge_contract rsize usize w supi rg u H). repeat split. Qed.
+Proof.
+  intros rsize usize w supi rg u H Hn. rewrite (recharge_contract rsize usize w supi rg u H).
+  destruct (Z.ltb_spec (u_notify u) 0) as [Hlt|_]; [exfalso; apply (Z.lt_irrefl 0), (Z.le_lt_trans _ _ _ Hn Hlt)|].
+  repeat split.
+Qed.
 Print Assumptions C12_recharge.
 
 (* every answer is one of 200 / 201 / 204 / 400 / 404 (0: database top-up, not an HTTP request) *)
